@@ -434,6 +434,19 @@ theorem x_ne_zero (n : Nat) (hc : CharGt F n) (i : Int) (h0 : 0 ≤ i) (hn : i <
     (xOf i : F) ≠ 0 ∧ ∀ j : Int, 0 ≤ j → j < n → (xOf i : F) = xOf j → i = j :=
   ⟨xOf_ne_zero hc i h0 hn, fun j hj0 hjn h => xOf_injOn hc i j h0 hn hj0 hjn h⟩
 
+/-- the index is NOT guarded by `Eval` itself: index `−1` is the point zero, `PriPoly.Eval(-1)` returns
+the secret (and `PubPoly.Eval(-1)` its commitment). Every caller in the repository passes an index
+`≥ 0` (`Shares`, the `I < 0` guard of `xScalar` / `RecoverCommit`, the unsigned 2-byte index of
+`tbls`), which is the hypothesis `0 ≤ i` of `x_ne_zero`; the correspondence run does not judge
+negative indices. -/
+theorem eval_at_minus_one_is_secret (f : List F) :
+    (xOf (-1) : F) = 0 ∧ priEval f (-1) = f.headD 0 := by
+  have h0 : (xOf (-1) : F) = 0 := by simp [xOf]
+  refine ⟨h0, ?_⟩
+  cases f with
+  | nil => rfl
+  | cons c l => simp [priEval, h0]
+
 /-- every share dealt by `Shares(n)` sits at index `k < n`, i.e. at the non-zero point `k+1` -/
 theorem shares_points (f : List F) (n : Nat) (hc : CharGt F n) :
     ∀ s ∈ priShares f n, 0 ≤ s.I ∧ s.I < n ∧ (xOf s.I : F) ≠ 0 ∧ s.V = some (priEval f s.I) := by
@@ -595,5 +608,7 @@ example : pubEqual (P := Zq 7) ⟨0, 1, [3, 2]⟩ ⟨0, 1, [3, 2, 5]⟩ = false
     ∧ pubEqual (P := Zq 7) ⟨0, 1, [3, 2, 5]⟩ ⟨0, 4, [3, 2, 5]⟩ = true := by decide
 
 example : CharGt (Zq 7) 5 := zq_charGt 7 5 (by decide)
+
+example : priEval ([3, 2, 5] : List (Zq 7)) (-1) = 3 := (eval_at_minus_one_is_secret [3, 2, 5]).2
 
 end Dos.Props.C09
